@@ -60,8 +60,9 @@ CLAIMED = {
         design_ref="DESIGN.md section 8 (C02), section 9"),
     "C03": dict(
         text="Coq theorems C03_step / C03_hist_abstract (over ANY finite sequence of pool steps the value reserve0*reserve1/supply^2 never decreases and the supply stays positive; induction), "
-             "C03_provision_is_step / C03_withdrawal_is_step / C03_swap_is_step (the premises of each step kind are what C05/C04/C01 prove about the real formulas), C03_refuted (known "
-             "finding KF-ceil-window).  PARTIAL: that every world transaction acts on every pair as pool steps is proved per operation (C02/C04/C05/C07 blocks), not as one theorem over run; "
+             "C03_provision_is_step / C03_withdrawal_is_step / C03_swap_is_step (the premises of each step kind are what C05/C04/C01 prove about the real formulas), C03_sys_swap / "
+             "C03_sys_withdraw / C03_sys_provide (the pair handlers of the world model ARE pool steps on the actual balances), C03_refuted (known finding KF-ceil-window).  PARTIAL: the "
+             "composition over run (several pairs per route) is not assembled into one theorem; "
              "it is monitored on the real contracts after every step of multi-actor random, extreme and router histories (swaps in kf_c01 exempt and counted).",
         design_ref="DESIGN.md section 8 (C03), section 9"),
     "C04": dict(
@@ -70,7 +71,9 @@ CLAIMED = {
              "ledger snapshot comparison and the withdrawal monitor on random and extreme histories.",
         design_ref="DESIGN.md section 8 (C04)"),
     "C07": dict(
-        text="World-model frame/conservation theorems (Proofs/FrameProofs.v, see Props/C07.v for what is proved at the time of the run) and, on the real contracts, full-ledger snapshot "
+        text="Coq theorems over the world model: C07_frame / C07_frame_reachable (an operation changes no balance outside touched(o), in every world reachable by any history from a "
+             "well-formed start), C07_WF_* (the structural invariant and its preservation by every operation: induction over run), C07_conserves (every operation conserves every asset's "
+             "total except its own mint/burn and the pair's LP token on provision/withdrawal), C07_route_frame, C07_factory_moves_nothing.  On the real contracts: full-ledger snapshot "
              "comparison with the model plus the frame / conservation / LP-supply monitor after every step of multi-actor histories with bystanders holding balances and allowances toward "
              "every pair.",
         design_ref="DESIGN.md section 8 (C07)"),
@@ -85,9 +88,10 @@ CLAIMED = {
              "perturbed pools, both entry points; ledger snapshot comparison and the minimum-receive monitor.",
         design_ref="DESIGN.md section 8 (C11)"),
     "C13": dict(
-        text="Coq theorems C13_rejects_empty, C13_single_dangling_output, C13_only_last_hop_pays_recipient, C13_hop_swaps_whole_balance (+ C12_forward for hop output = simulation).  "
-             "PARTIAL: the end-to-end equation 'recipient receives exactly the quote, router ends empty' is not one theorem; it is monitored on the real contracts (quote taken in the same "
-             "state just before each route) together with ledger snapshot comparison with the model.",
+        text="Coq theorems C13_rejects_empty, C13_single_dangling_output, C13_only_last_hop_pays_recipient, C13_hop_swaps_whole_balance, C13_hop_delivers, C13_one_hop_quote, "
+             "C13_two_hops_quote and C13_route_quote / C13_exec_route_quote (for a chain route of ANY number of hops through distinct pairs over distinct assets, entered with the router "
+             "holding only the input, the recipient receives exactly the router's own quote and every route asset ends at zero in the router; induction over the hop list).  On the real "
+             "contracts: the quote is taken in the same state just before each route and compared by the monitor, with ledger snapshot comparison with the model.",
         design_ref="DESIGN.md section 8 (C13)"),
     "C14": dict(
         text="Coq theorems, one per guarded entry point (C14_factory_* , C14_pair_update_decimals, C14_pair_withdraw_hook, C14_pair_swap_hook, C14_router_single_hop, C14_router_assert_min), "
@@ -117,7 +121,8 @@ CLAIMED = {
              "(induction over digit lists).  Tied to the real types on the operand grid and on ALL strings over {0,1,9,.} up to length 5 (quick) / 7 (thorough) plus boundary numerals.",
         design_ref="DESIGN.md section 8 (C18)"),
     "C20": dict(
-        text="World-model liveness theorems for an entitled withdrawal (Proofs/LivenessProofs.v, see Props/C20.v for what is proved at the time of the run) built on C04_total; on the real "
+        text="Coq theorems C20 / C20_handler / C20_refund_positive and C20_reachable (in every world reachable by any history from a well-formed start an entitled withdrawal succeeds; the "
+             "structural hypotheses are discharged by the invariant WF, the numeric ones - 128-bit balances - remain as E-supply), built on C04_total; on the real "
              "contracts every LP holder's withdrawals of {1, half, all, a tenth} after random and extreme histories (donations up to 2^119) are checked against the entitlement condition by "
              "the liveness monitor, with ledger snapshot comparison with the model.",
         design_ref="DESIGN.md section 8 (C20)"),
